@@ -7,7 +7,7 @@ From Pq Require Import Base.Bytes Base.Bits Base.ListX Proofs.BytesProofs Proofs
   Proofs.CompactProofs Codec.Varint Codec.Bitpack Codec.Hybrid Thrift.Compact Thrift.Idl Thrift.IdlPinned
   Format.Phys Format.Meta Format.Page Format.ChunkLayout Format.File Format.Enc.
 From Pq Require Import Proofs.HybridProofs Proofs.FormatCodecProofs Proofs.FormatPageProofs Proofs.FormatChunkProofs
-  Proofs.ChunkLayoutProofs Proofs.FormatMetaProofs.
+  Proofs.ChunkLayoutProofs Proofs.FormatMetaProofs Proofs.FormatIdlProofs.
 Import ListNotations.
 Open Scope N_scope.
 Open Scope list_scope.
@@ -406,13 +406,25 @@ Proof.
   now rewrite !app_tr_ok, concat_tr_ok.
 Qed.
 
-(* the footer is representable in the compact protocol and conforms to the IDL: integers within their
-   declared widths, strings shorter than 2^31, nesting <= 64, logical types of the leaves conformant;
-   all decidable, and checked by fmt_validate on every file the encoder produces *)
+(* the footer is representable in the compact protocol: integers within their declared widths, strings
+   shorter than 2^31, nesting <= 64, the footer itself shorter than 4 GiB; and the logical types the
+   layout attaches to its leaves (carried as generic values) conform to the IDL's LogicalType.
+   Conformance of the whole footer to the IDL then is a theorem (Proofs/FormatIdlProofs.v conf_fmd). *)
+Definition leaf_logical_ok (l : lleaf) : Prop :=
+  match ll_logical l with Some v => conforms pinned idl_opts (FStruct "LogicalType") v = true | None => True end.
+
 Definition footer_ok (f : lfile) : Prop :=
   wfb (fmd_to_tv (file_meta f)) = true /\ (depth (fmd_to_tv (file_meta f)) <= max_depth)%nat /\
-  conforms pinned idl_opts (FStruct "FileMetaData") (fmd_to_tv (file_meta f)) = true /\
+  Forall leaf_logical_ok (l_leaves f) /\
   lenN (file_footer f) < 2 ^ 32.
+
+Lemma footer_conforms f : Forall leaf_logical_ok (l_leaves f) ->
+  conforms pinned idl_opts (FStruct "FileMetaData") (fmd_to_tv (file_meta f)) = true.
+Proof.
+  intros H. apply conf_fmd. unfold file_meta. cbn [fm_schema]. constructor; [exact I|].
+  apply Forall_forall. intros s Hs. apply in_map_iff in Hs. destruct Hs as (l & <- & Hl).
+  rewrite Forall_forall in H. exact (H l Hl).
+Qed.
 
 Lemma magic_len : lenN magic = 4. Proof. reflexivity. Qed.
 
@@ -424,7 +436,7 @@ Proof. intros ->. apply takeN_app_exact. Qed.
 Theorem parse_footer_roundtrip f : footer_ok f ->
   parse_footer (enc_file compress f) = ROk (file_meta f, 4 + lenN (file_data f), lenN (file_footer f)).
 Proof.
-  intros (WF & DP & CF & FL). rewrite enc_file_eq. unfold parse_footer.
+  intros (WF & DP & LG & FL). pose proof (footer_conforms f LG) as CF. rewrite enc_file_eq. unfold parse_footer.
   set (D := file_data f). set (F := file_footer f). set (L := le_enc 4 (lenN F)).
   assert (LL : lenN L = 4) by (unfold L; now rewrite lenN_ok, le_enc_length).
   assert (TOT : lenN (magic ++ D ++ F ++ L ++ magic) = lenN D + lenN F + 12) by (rewrite !lenN_app, LL, magic_len; lia).
